@@ -104,7 +104,7 @@ def _set_activity(sim, v, act: str, base_id: str, station_id: str, rid: Optional
     return ops.modify_vehicle_safe(sim, v.modify_vehicle_state(s)).unwrap()
 
 
-def judge(sim, env, instructions, fleets, valid_states, flags: Set[str], stats) -> List[Violation]:
+def judge(sim, env, instructions, fleets, valid_states, flags: Set[str], stats, on_shift: Optional[Dict[str, bool]] = None) -> List[Violation]:
     """the C12 oracle for one dispatcher run: `instructions` is what Dispatcher.generate_instructions returned for `sim`"""
     import h3
 
@@ -115,7 +115,8 @@ def judge(sim, env, instructions, fleets, valid_states, flags: Set[str], stats) 
 
     def v_eligible(v, f) -> bool:
         rng = env.mechatronics[v.mechatronics_id].range_remaining_km(v)
-        return (type(v.vehicle_state).__name__.lower() in valid_states and bool(v.driver_state.available)
+        avail = on_shift[v.id] if on_shift is not None and v.id in on_shift else bool(v.driver_state.available)
+        return (type(v.vehicle_state).__name__.lower() in valid_states and avail
                 and (f is None or f in v.membership.memberships)
                 and not (type(v.vehicle_state).__name__ == "ChargingBase" and rng < base_thr) and rng > thr)
 
@@ -146,7 +147,7 @@ def judge(sim, env, instructions, fleets, valid_states, flags: Set[str], stats) 
             if i.vehicle_id not in evi:
                 v = sim.vehicles[i.vehicle_id]
                 why = ("not a member of the fleet" if f is not None and f not in v.membership.memberships else
-                       "driver off shift" if not v.driver_state.available else
+                       "driver off shift" if not (on_shift[v.id] if on_shift is not None and v.id in on_shift else v.driver_state.available) else
                        "activity not dispatchable" if type(v.vehicle_state).__name__.lower() not in valid_states else "not enough range")
                 out.append(Violation(PROP, f"an ineligible vehicle is paired ({why})", dict(detail, vehicle=i.vehicle_id)))
             if i.request_id not in eri:
@@ -240,7 +241,23 @@ class C12History(__import__("hv.history", fromlist=["Monitor"]).Monitor):
             return
         flags: Set[str] = set()
         stats = collections.Counter()
-        vs = judge(disp.seen, h.env, disp.emitted, list(h.spec.get("fleet_ids") or []), set(h.env.config.dispatcher.valid_dispatch_states), flags, stats)
+        # "each time the dispatcher runs": judged on the state of the step at that moment, as a generator installed next to the
+        # dispatcher observes it (every generator of a step is handed the same state: after the pre-step and driver updates)
+        obs = next((g.seen for g in h.scripted if getattr(g, "seen", None) is not None), None)
+        if obs is not None:
+            h.flag("h_judged_on_the_state_a_neighbouring_generator_saw")
+        # "driver on shift" is decided from the shift table and the clock (start inclusive, end exclusive, wrapping past midnight;
+        # the time at which the step begins), not from the availability flag the dispatcher itself reads
+        sched = {sid: tuple(sum(int(p_) * m for p_, m in zip(x.split(":"), (3600, 60, 1))) for x in (a_, b_)) for sid, a_, b_ in (h.spec.get("schedules") or [])}
+        t_ = int(disp.seen.sim_time) % 86400
+        on_shift = {}
+        for v_ in h.spec["vehicles"]:
+            if v_.get("schedule") in sched:
+                a_, b_ = sched[v_["schedule"]]
+                on_shift[v_["id"]] = (a_ <= t_ < b_) if a_ <= b_ else (t_ >= a_ or t_ < b_)
+        if on_shift:
+            h.flag("h_human_drivers_judged_by_the_shift_table")
+        vs = judge(obs if obs is not None else disp.seen, h.env, disp.emitted, list(h.spec.get("fleet_ids") or []), set(h.env.config.dispatcher.valid_dispatch_states), flags, stats, on_shift=on_shift)
         h.stats["dispatcher_runs_in_histories"] += 1
         h.stats["history_groups"] += stats["groups"]
         if disp.emitted:
@@ -256,7 +273,7 @@ from hv import hprop  # noqa: E402
 
 HIST = hprop.HistoryProperty(
     prop=PROP, monitors=lambda: [C12History()],
-    profile=profile(nv=(2, 8), n_requests=(10, 40), builtin=[True], fleets=[0, 0, 1, 2, 3], socs=[0.05, 0.12, 0.3, 0.31, 0.6, 0.9, 1.0], timeouts=[300, 600]),
+    profile=profile(nv=(2, 8), n_requests=(10, 40), builtin=[True], fleets=[0, 0, 1, 2, 3], socs=[0.05, 0.12, 0.3, 0.31, 0.6, 0.9, 1.0], timeouts=[300, 600], human_share=[False, True, True]),
     nontrivial=lambda f: "history_pairing" in f, rule="", assumptions=[], quick=(4, 60, 40), thorough=(4, 800, 60),
 )
 
